@@ -119,7 +119,7 @@ func main() {
 		// expiry settings: small maxima so that some segments have run out
 		for _, ia := range t.Order {
 			t.ASes[ia].MaxExp = uint8(rng.Intn(7))
-			if rng.Intn(3) == 0 {
+			if rng.Intn(3) == 0 || i%3 == 0 {
 				t.ASes[ia].MaxExp = uint8(20 + rng.Intn(200))
 			}
 		}
@@ -155,14 +155,19 @@ func main() {
 		for k := 0; k < *per; k++ {
 			local := t.Order[rng.Intn(len(t.Order))]
 			var dst addr.IA
-			switch rng.Intn(14) {
+			switch rng.Intn(16) {
 			case 0:
 				dst = local
-			case 1:
+			case 1, 2:
 				dst = addr.MustIAFrom(local.ISD(), 0)
-			case 2:
+			case 3, 4, 5: // wildcard of another ISD if there is one
 				dst = addr.MustIAFrom(t.Order[rng.Intn(len(t.Order))].ISD(), 0)
-			case 3:
+				for _, ia := range t.Order {
+					if ia.ISD() != local.ISD() {
+						dst = addr.MustIAFrom(ia.ISD(), 0)
+					}
+				}
+			case 6:
 				dst = addr.MustIAFrom(0, t.Order[rng.Intn(len(t.Order))].AS())
 			default:
 				dst = t.Order[rng.Intn(len(t.Order))]
@@ -261,8 +266,8 @@ func main() {
 				}
 			}
 			dstCore := dst.IsWildcard() || (t.ASes[dst] != nil && t.ASes[dst].Core)
-			ev["cls"] = fmt.Sprintf("local-core=%v,dst-core=%v,same-isd=%v,wildcard=%v", t.ASes[local].Core,
-				dstCore, local.ISD() == dst.ISD(), dst.IsWildcard())
+			ev["cls"] = fmt.Sprintf("lc=%v,dc=%v,si=%v,wc=%v", b2i(t.ASes[local].Core),
+				b2i(dstCore), b2i(local.ISD() == dst.ISD()), b2i(dst.IsWildcard()))
 			ev["local"] = iaRec(local)
 			ev["localcore"] = t.ASes[local].Core
 			ev["dst"] = iaRec(dst)
@@ -283,3 +288,10 @@ func main() {
 }
 
 var _ = rand.Int
+
+func b2i(b bool) int {
+	if b {
+		return 1
+	}
+	return 0
+}
